@@ -4,6 +4,7 @@ From KV Require Import Base.Prelude Gen.ErrorCodes Gen.Consts Model.Codecs Model
                        Model.ClientState Model.Net Model.Client Proofs.C11Facts.
 
 From KV Require Import Proofs.C11Extra.
+From KV Require Import Proofs.C11ExtraB.
 (* the table, for every i16 (indeed every integer): 0 is success, the declared range maps
    to the variant of that discriminant, anything else to Unknown; the enum read from
    src/error.rs declares every value of the transmuted range *)
@@ -230,3 +231,129 @@ Print Assumptions C11_send_all_confirms.
 Print Assumptions C11_send_broker_error.
 Print Assumptions C11_send_fails.
 Print Assumptions C11_send_ok_confirmed.
+
+Theorem C11_commit_consumed_fails :
+  forall (k : Consumer.consumer) (s : st) (order : list (bytes * Z)) (s1 : st) (os : list commit_offset) (e : err) (s2 : st), Consumer.k_group k <> [] -> match Consumer.dirty_entries k with | [] => ret [] | _ :: _ => pop_entries end s = (Ok order, s1) -> Consumer.commit_entries (debug_build (env s)) (Consumer.reorder_entries order (Consumer.dirty_entries k)) = Ok os -> commit_offsets (Consumer.k_group k) os s1 = (Err e, s2) -> Consumer.commit_consumed k s = (Err e, s2).
+Proof. exact (@C11ExtraB.C11_commit_consumed_fails). Qed.
+
+Theorem C11_commit_consumed_ok_clean :
+  forall (k : Consumer.consumer) (s : st) (k' : Consumer.consumer) (s' : st), Consumer.commit_consumed k s = (Ok k', s') -> exists (order : list (bytes * Z)) (s1 : st) (os : list commit_offset), match Consumer.dirty_entries k with | [] => ret [] | _ :: _ => pop_entries end s = (Ok order, s1) /\ Consumer.commit_entries (debug_build (env s)) (Consumer.reorder_entries order (Consumer.dirty_entries k)) = Ok os /\ (commit_tps (cs (cl s1)) os [] = Some [] \/ (exists (corr : Z) (otps : list (bytes * list (Z * Z))) (h : bytes) (s1' : st) (rc : Z) (tps : list (bytes * list (Z * Z))), commit_tps (cs (cl s1)) os [] = Some otps /\ send_receive dec_offset_commit_resp h (enc_offset_commit_req corr (client_id (cfg (cl s1))) (Consumer.k_group k) (commit_version (offset_storage (cfg (cl s1)))) otps) s1' = (Ok (rc, tps), s') /\ codes_zero tps)).
+Proof. exact (@C11ExtraB.C11_commit_consumed_ok_clean). Qed.
+
+Theorem C11_commit_consumed_ok_only_if :
+  forall (k : Consumer.consumer) (s : st) (k' : Consumer.consumer) (s' : st), Consumer.commit_consumed k s = (Ok k', s') -> exists (order : list (bytes * Z)) (s1 : st) (os : list commit_offset), match Consumer.dirty_entries k with | [] => ret [] | _ :: _ => pop_entries end s = (Ok order, s1) /\ Consumer.commit_entries (debug_build (env s)) (Consumer.reorder_entries order (Consumer.dirty_entries k)) = Ok os /\ commit_offsets (Consumer.k_group k) os s1 = (Ok tt, s') /\ k' = Consumer.consumer_with (Consumer.consumer_with_client k (cl s')) (Consumer.k_fetch k) (Consumer.k_retry k) (map (fun '(key, (o, _)) => (key, (o, false))) (Consumer.k_consumed k)).
+Proof. exact (@C11ExtraB.C11_commit_consumed_ok_only_if). Qed.
+
+Theorem C11_commit_first_code_total :
+  forall tps : list (bytes * list (Z * Z)), codes_zero tps \/ (exists (t : bytes) (p e : Z), commit_first_code tps t p e).
+Proof. exact (@C11ExtraB.C11_commit_first_code_total). Qed.
+
+Theorem C11_commit_history :
+  forall (group : bytes) (req : res bytes) (a : Z) (s : st) (tpss : list (list (bytes * list (Z * Z)))) (a' : Z) (s' : st) (f : nat), commit_retries group req a s tpss a' s' -> commit_loop (length tpss + f) group req a s = commit_loop f group req a' s'.
+Proof. exact (@C11ExtraB.C11_commit_history). Qed.
+
+Theorem C11_commit_history_exhausted :
+  forall (group : bytes) (req : res bytes) (a : Z) (s : st) (tpss : list (list (bytes * list (Z * Z)))) (a' : Z) (s' : st) (f : nat) (h : bytes) (s1 : st) (corr : Z) (tps : list (bytes * list (Z * Z))) (s2 : st) (t : bytes) (p e : Z), commit_retries group req a s tpss a' s' -> get_group_coordinator group s' = (Ok h, s1) -> send_receive dec_offset_commit_resp h req s1 = (Ok (corr, tps), s2) -> commit_first_code tps t p e -> e = 14 \/ e = 16 -> retry_max_attempts (cfg (cl s2)) <= a' -> exists s3 : st, commit_loop (length tpss + S f) group req a s = (Err (EKafka e), s3).
+Proof. exact (@C11ExtraB.C11_commit_history_exhausted). Qed.
+
+Theorem C11_commit_history_fatal :
+  forall (group : bytes) (req : res bytes) (a : Z) (s : st) (tpss : list (list (bytes * list (Z * Z)))) (a' : Z) (s' : st) (f : nat) (h : bytes) (s1 : st) (corr : Z) (tps : list (bytes * list (Z * Z))) (s2 : st) (t : bytes) (p e c : Z), commit_retries group req a s tpss a' s' -> get_group_coordinator group s' = (Ok h, s1) -> send_receive dec_offset_commit_resp h req s1 = (Ok (corr, tps), s2) -> commit_first_code tps t p e -> from_protocol e = Some c -> c <> KC_GroupLoadInProgress -> c <> KC_NotCoordinatorForGroup -> commit_loop (length tpss + S f) group req a s = (Err (EKafka c), s2).
+Proof. exact (@C11ExtraB.C11_commit_history_fatal). Qed.
+
+Theorem C11_commit_history_ok :
+  forall (group : bytes) (req : res bytes) (a : Z) (s : st) (tpss : list (list (bytes * list (Z * Z)))) (a' : Z) (s' : st) (f : nat) (h : bytes) (s1 : st) (corr : Z) (tps : list (bytes * list (Z * Z))) (s2 : st), commit_retries group req a s tpss a' s' -> get_group_coordinator group s' = (Ok h, s1) -> send_receive dec_offset_commit_resp h req s1 = (Ok (corr, tps), s2) -> codes_zero tps -> commit_loop (length tpss + S f) group req a s = (Ok tt, s2).
+Proof. exact (@C11ExtraB.C11_commit_history_ok). Qed.
+
+Theorem C11_commit_loop_first_fatal :
+  forall (f : nat) (group : bytes) (req : res bytes) (attempt : Z) (s : st) (h : bytes) (s1 : st) (corr : Z) (tps : list (bytes * list (Z * Z))) (s2 : st) (t : bytes) (p e c : Z), get_group_coordinator group s = (Ok h, s1) -> send_receive dec_offset_commit_resp h req s1 = (Ok (corr, tps), s2) -> commit_first_code tps t p e -> from_protocol e = Some c -> c <> KC_GroupLoadInProgress -> c <> KC_NotCoordinatorForGroup -> commit_loop (S f) group req attempt s = (Err (EKafka c), s2).
+Proof. exact (@C11ExtraB.C11_commit_loop_first_fatal). Qed.
+
+Theorem C11_commit_offsets_fails :
+  forall (group : bytes) (os : list commit_offset) (s : st) (corr : Z) (s0 : st) (x : bytes * list (Z * Z)) (otps : list (bytes * list (Z * Z))) (h : bytes) (s1 : st) (rc : Z) (tps : list (bytes * list (Z * Z))) (s2 : st) (t : bytes) (p e c : Z), 0 <= offset_storage (cfg (cl s)) -> next_corr s = (Ok corr, s0) -> commit_tps (cs (cl s)) os [] = Some (x :: otps) -> get_group_coordinator group s0 = (Ok h, s1) -> send_receive dec_offset_commit_resp h (enc_offset_commit_req corr (client_id (cfg (cl s))) group (commit_version (offset_storage (cfg (cl s)))) (x :: otps)) s1 = (Ok (rc, tps), s2) -> commit_first_code tps t p e -> from_protocol e = Some c -> c <> KC_GroupLoadInProgress -> c <> KC_NotCoordinatorForGroup -> commit_offsets group os s = (Err (EKafka c), s2).
+Proof. exact (@C11ExtraB.C11_commit_offsets_fails). Qed.
+
+Theorem C11_commit_offsets_history_fatal :
+  forall (group : bytes) (os : list commit_offset) (s : st) (corr : Z) (s0 : st) (x : bytes * list (Z * Z)) (otps : list (bytes * list (Z * Z))) (tpss : list (list (bytes * list (Z * Z)))) (a' : Z) (s' : st) (h : bytes) (s1 : st) (rc : Z) (tps : list (bytes * list (Z * Z))) (s2 : st) (t : bytes) (p e c : Z), 0 <= offset_storage (cfg (cl s)) -> next_corr s = (Ok corr, s0) -> commit_tps (cs (cl s)) os [] = Some (x :: otps) -> let req := enc_offset_commit_req corr (client_id (cfg (cl s))) group (commit_version (offset_storage (cfg (cl s)))) (x :: otps) in commit_retries group req 1 s0 tpss a' s' -> (length tpss <= length (script s0))%nat -> get_group_coordinator group s' = (Ok h, s1) -> send_receive dec_offset_commit_resp h req s1 = (Ok (rc, tps), s2) -> commit_first_code tps t p e -> from_protocol e = Some c -> c <> KC_GroupLoadInProgress -> c <> KC_NotCoordinatorForGroup -> commit_offsets group os s = (Err (EKafka c), s2).
+Proof. exact (@C11ExtraB.C11_commit_offsets_history_fatal). Qed.
+
+Theorem C11_commit_offsets_history_ok :
+  forall (group : bytes) (os : list commit_offset) (s : st) (corr : Z) (s0 : st) (x : bytes * list (Z * Z)) (otps : list (bytes * list (Z * Z))) (tpss : list (list (bytes * list (Z * Z)))) (a' : Z) (s' : st) (h : bytes) (s1 : st) (rc : Z) (tps : list (bytes * list (Z * Z))) (s2 : st), 0 <= offset_storage (cfg (cl s)) -> next_corr s = (Ok corr, s0) -> commit_tps (cs (cl s)) os [] = Some (x :: otps) -> let req := enc_offset_commit_req corr (client_id (cfg (cl s))) group (commit_version (offset_storage (cfg (cl s)))) (x :: otps) in commit_retries group req 1 s0 tpss a' s' -> (length tpss <= length (script s0))%nat -> get_group_coordinator group s' = (Ok h, s1) -> send_receive dec_offset_commit_resp h req s1 = (Ok (rc, tps), s2) -> codes_zero tps -> commit_offsets group os s = (Ok tt, s2).
+Proof. exact (@C11ExtraB.C11_commit_offsets_history_ok). Qed.
+
+Theorem C11_commit_resend_only_if :
+  forall (f : nat) (group : bytes) (req : res bytes) (attempt : Z) (s : st) (h : bytes) (s1 : st) (corr : Z) (tps : list (bytes * list (Z * Z))) (s2 : st) (r : res unit) (s' : st), get_group_coordinator group s = (Ok h, s1) -> send_receive dec_offset_commit_resp h req s1 = (Ok (corr, tps), s2) -> commit_loop (S f) group req attempt s = (r, s') -> codes_zero tps /\ r = Ok tt /\ s' = s2 \/ (exists (t : bytes) (p e c : Z), commit_first_code tps t p e /\ from_protocol e = Some c /\ c <> KC_GroupLoadInProgress /\ c <> KC_NotCoordinatorForGroup /\ r = Err (EKafka c) /\ s' = s2) \/ (exists (t : bytes) (p e : Z), commit_first_code tps t p e /\ (e = 14 \/ e = 16)).
+Proof. exact (@C11ExtraB.C11_commit_resend_only_if). Qed.
+
+Theorem C11_commit_retry_step :
+  forall (f : nat) (group : bytes) (req : res bytes) (attempt : Z) (s : st) (h : bytes) (s1 : st) (corr : Z) (tps : list (bytes * list (Z * Z))) (s2 : st) (code : Z) (reset : bool), get_group_coordinator group s = (Ok h, s1) -> send_receive dec_offset_commit_resp h req s1 = (Ok (corr, tps), s2) -> commit_scan tps = ScanRetry code reset -> attempt < retry_max_attempts (cfg (cl s2)) -> commit_loop (S f) group req attempt s = commit_loop f group req (attempt + 1) (commit_after_retry reset group s2).
+Proof. exact (@C11ExtraB.C11_commit_retry_step). Qed.
+
+Theorem C11_commit_scan_fatal_before_retryable :
+  forall (tps : list (bytes * list (Z * Z))) (t : bytes) (p e c : Z), commit_first_code tps t p e -> from_protocol e = Some c -> c <> KC_GroupLoadInProgress -> c <> KC_NotCoordinatorForGroup -> commit_scan tps = ScanFatal c.
+Proof. exact (@C11ExtraB.C11_commit_scan_fatal_before_retryable). Qed.
+
+Theorem C11_commit_scan_fatal_only_if :
+  forall (tps : list (bytes * list (Z * Z))) (c : Z), commit_scan tps = ScanFatal c -> exists (t : bytes) (p e : Z), commit_first_code tps t p e /\ from_protocol e = Some c /\ c <> KC_GroupLoadInProgress /\ c <> KC_NotCoordinatorForGroup.
+Proof. exact (@C11ExtraB.C11_commit_scan_fatal_only_if). Qed.
+
+Theorem C11_commit_scan_first_code :
+  forall (tps : list (bytes * list (Z * Z))) (t : bytes) (p e c : Z), commit_first_code tps t p e -> from_protocol e = Some c -> commit_scan tps = commit_class c.
+Proof. exact (@C11ExtraB.C11_commit_scan_first_code). Qed.
+
+Theorem C11_commit_scan_retry_only_if :
+  forall (tps : list (bytes * list (Z * Z))) (code : Z) (reset : bool), commit_scan tps = ScanRetry code reset -> exists (t : bytes) (p e : Z), commit_first_code tps t p e /\ from_protocol e = Some code /\ (code = KC_GroupLoadInProgress /\ reset = false \/ code = KC_NotCoordinatorForGroup /\ reset = true).
+Proof. exact (@C11ExtraB.C11_commit_scan_retry_only_if). Qed.
+
+Theorem C11_commit_scan_retryable_first :
+  forall (tps : list (bytes * list (Z * Z))) (t : bytes) (p e : Z), commit_first_code tps t p e -> (e = 14 -> commit_scan tps = ScanRetry KC_GroupLoadInProgress false) /\ (e = 16 -> commit_scan tps = ScanRetry KC_NotCoordinatorForGroup true).
+Proof. exact (@C11ExtraB.C11_commit_scan_retryable_first). Qed.
+
+Theorem C11_fetch_group_offsets_fails :
+  forall (group : bytes) (ps : list (bytes * Z)) (s : st) (corr : Z) (s0 : st) (otps : list (bytes * list Z)) (h : bytes) (s1 : st) (rc : Z) (tps : list (bytes * list offset_fetch_part)) (s2 : st) (tpre : list (bytes * list offset_fetch_part)) (t : bytes) (ps' : list offset_fetch_part) (tpost : list (bytes * list offset_fetch_part)) (pre : list offset_fetch_part) (p : offset_fetch_part) (post : list offset_fetch_part) (c : Z), 0 <= offset_storage (cfg (cl s)) -> next_corr s = (Ok corr, s0) -> group_fetch_tps (cs (cl s)) ps [] = Some otps -> get_group_coordinator group s0 = (Ok h, s1) -> send_receive dec_offset_fetch_resp h (enc_offset_fetch_req corr (client_id (cfg (cl s))) group (fetch_version (offset_storage (cfg (cl s)))) otps) s1 = (Ok (rc, tps), s2) -> tps = tpre ++ (t, ps') :: tpost -> (forall (t' : bytes) (ps'' : list offset_fetch_part), In (t', ps'') tpre -> healthy get_offsets ps'') -> ps' = pre ++ p :: post -> healthy get_offsets pre -> from_protocol (ofp_error p) = Some c -> c <> KC_UnknownTopicOrPartition -> c <> KC_GroupLoadInProgress -> c <> KC_NotCoordinatorForGroup -> fetch_group_offsets group ps s = (Err (EKafka c), s2).
+Proof. exact (@C11ExtraB.C11_fetch_group_offsets_fails). Qed.
+
+Theorem C11_fetch_group_topic_offset_fails :
+  forall (group topic : bytes) (s : st) (corr : Z) (s0 : st) (parts : list Z) (h : bytes) (s1 : st) (rc : Z) (tps : list (bytes * list offset_fetch_part)) (s2 : st) (tpre : list (bytes * list offset_fetch_part)) (t : bytes) (ps' : list offset_fetch_part) (tpost : list (bytes * list offset_fetch_part)) (pre : list offset_fetch_part) (p : offset_fetch_part) (post : list offset_fetch_part) (c : Z), 0 <= offset_storage (cfg (cl s)) -> next_corr s = (Ok corr, s0) -> partitions_for (cs (cl s)) topic = Some parts -> get_group_coordinator group s0 = (Ok h, s1) -> send_receive dec_offset_fetch_resp h (enc_offset_fetch_req corr (client_id (cfg (cl s))) group (fetch_version (offset_storage (cfg (cl s)))) (fold_left (fun (acc : list (bytes * list Z)) (id : Z) => tp_add acc topic id) (iota_z (length parts) 0) [])) s1 = (Ok (rc, tps), s2) -> tps = tpre ++ (t, ps') :: tpost -> (forall (t' : bytes) (ps'' : list offset_fetch_part), In (t', ps'') tpre -> healthy get_offsets ps'') -> ps' = pre ++ p :: post -> healthy get_offsets pre -> from_protocol (ofp_error p) = Some c -> c <> KC_UnknownTopicOrPartition -> c <> KC_GroupLoadInProgress -> c <> KC_NotCoordinatorForGroup -> fetch_group_topic_offset group topic s = (Err (EKafka c), s2).
+Proof. exact (@C11ExtraB.C11_fetch_group_topic_offset_fails). Qed.
+
+Theorem C11_fetch_group_topic_offset_ok_clean :
+  forall (group topic : bytes) (s : st) (vs : list (Z * Z)) (s' : st), fetch_group_topic_offset group topic s = (Ok vs, s') -> exists (h : bytes) (req : res bytes) (s1 : st) (rc : Z) (tps : list (bytes * list offset_fetch_part)) (m : list (bytes * list (Z * Z))), send_receive dec_offset_fetch_resp h req s1 = (Ok (rc, tps), s') /\ group_scan tps [] = inl (inl m) /\ vs = match assoc_bytes topic m with | Some v => v | None => [] end /\ (forall (t : bytes) (ps : list offset_fetch_part) (p : offset_fetch_part), In (t, ps) tps -> In p ps -> ofp_acceptable p).
+Proof. exact (@C11ExtraB.C11_fetch_group_topic_offset_ok_clean). Qed.
+
+Theorem C11_group_fetch_retry_exhausted :
+  forall (f : nat) (group : bytes) (req : res bytes) (attempt : Z) (s : st) (h : bytes) (s1 : st) (corr : Z) (tps : list (bytes * list offset_fetch_part)) (s2 : st) (code : Z) (reset : bool), get_group_coordinator group s = (Ok h, s1) -> send_receive dec_offset_fetch_resp h req s1 = (Ok (corr, tps), s2) -> group_scan tps [] = inl (inr (code, reset)) -> retry_max_attempts (cfg (cl s2)) <= attempt -> exists s3 : st, group_fetch_loop (S f) group req attempt s = (Err (EKafka code), s3).
+Proof. exact (@C11ExtraB.C11_group_fetch_retry_exhausted). Qed.
+
+Theorem C11_group_fetch_retry_step :
+  forall (f : nat) (group : bytes) (req : res bytes) (attempt : Z) (s : st) (h : bytes) (s1 : st) (corr : Z) (tps : list (bytes * list offset_fetch_part)) (s2 : st) (code : Z) (reset : bool), get_group_coordinator group s = (Ok h, s1) -> send_receive dec_offset_fetch_resp h req s1 = (Ok (corr, tps), s2) -> group_scan tps [] = inl (inr (code, reset)) -> attempt < retry_max_attempts (cfg (cl s2)) -> group_fetch_loop (S f) group req attempt s = group_fetch_loop f group req (attempt + 1) (commit_after_retry reset group s2).
+Proof. exact (@C11ExtraB.C11_group_fetch_retry_step). Qed.
+
+Theorem C11_group_scan_retry :
+  forall (tps : list (bytes * list offset_fetch_part)) (m : list (bytes * list (Z * Z))) (tpre : list (bytes * list offset_fetch_part)) (t : bytes) (ps : list offset_fetch_part) (tpost : list (bytes * list offset_fetch_part)) (pre : list offset_fetch_part) (p : offset_fetch_part) (post : list offset_fetch_part), tps = tpre ++ (t, ps) :: tpost -> (forall (t' : bytes) (ps' : list offset_fetch_part), In (t', ps') tpre -> healthy get_offsets ps') -> ps = pre ++ p :: post -> healthy get_offsets pre -> (ofp_error p = 14 -> group_scan tps m = inl (inr (KC_GroupLoadInProgress, false))) /\ (ofp_error p = 16 -> group_scan tps m = inl (inr (KC_NotCoordinatorForGroup, true))).
+Proof. exact (@C11ExtraB.C11_group_scan_retry). Qed.
+
+Print Assumptions C11_commit_consumed_fails.
+Print Assumptions C11_commit_consumed_ok_clean.
+Print Assumptions C11_commit_consumed_ok_only_if.
+Print Assumptions C11_commit_first_code_total.
+Print Assumptions C11_commit_history.
+Print Assumptions C11_commit_history_exhausted.
+Print Assumptions C11_commit_history_fatal.
+Print Assumptions C11_commit_history_ok.
+Print Assumptions C11_commit_loop_first_fatal.
+Print Assumptions C11_commit_offsets_fails.
+Print Assumptions C11_commit_offsets_history_fatal.
+Print Assumptions C11_commit_offsets_history_ok.
+Print Assumptions C11_commit_resend_only_if.
+Print Assumptions C11_commit_retry_step.
+Print Assumptions C11_commit_scan_fatal_before_retryable.
+Print Assumptions C11_commit_scan_fatal_only_if.
+Print Assumptions C11_commit_scan_first_code.
+Print Assumptions C11_commit_scan_retry_only_if.
+Print Assumptions C11_commit_scan_retryable_first.
+Print Assumptions C11_fetch_group_offsets_fails.
+Print Assumptions C11_fetch_group_topic_offset_fails.
+Print Assumptions C11_fetch_group_topic_offset_ok_clean.
+Print Assumptions C11_group_fetch_retry_exhausted.
+Print Assumptions C11_group_fetch_retry_step.
+Print Assumptions C11_group_scan_retry.
